@@ -577,6 +577,7 @@ type hist struct {
 	sigs    map[string]mkey
 	lastEp  int64 // head epoch of the newest certificate in the store
 	hold    bool  // certificates decided by the others are waiting: the node must not decide those instances differently
+	voted   map[uint64]bool // instances the node has cast votes for (survives restarts, like the WAL)
 	decEnd  map[uint64]int64 // head epoch of the value the node itself announced DECIDE for
 }
 
@@ -668,6 +669,11 @@ func (h *hist) put(n int) {
 			inst = l.GPBFTInstance + 1
 		}
 		from, to := h.lastEp, h.lastEp
+		if _, ok := h.decEnd[inst]; h.voted[inst] && !ok {
+			// every quorum of this table contains one of the node's identities: the others cannot have decided an instance
+			// the node is voting on before the node has announced its own decision (which they then share - agreement)
+			break
+		}
 		if end, ok := h.decEnd[inst]; ok {
 			to = end // the node has announced its decision for this instance: the others decided the same (agreement)
 		} else if h.hold = true; h.rng.Intn(3) != 0 {
@@ -683,7 +689,9 @@ func (h *hist) put(n int) {
 		h.lastEp = to
 		js = append(js, jcert(c))
 	}
-	h.r.emit(ev{"ev": "Put", "certs": js, "latest": latestOf(h.cs)})
+	if len(js) > 0 {
+		h.r.emit(ev{"ev": "Put", "certs": js, "latest": latestOf(h.cs)})
+	}
 }
 
 func (h *hist) boot() {
@@ -697,9 +705,15 @@ func (h *hist) boot() {
 	if err != nil {
 		h.w.t.Fatalf("newRunner: %v", err)
 	}
-	h.run, h.out, h.inbox, h.hold = run, out, nil, false
-	h.decEnd = map[uint64]int64{}
+	h.run, h.out, h.inbox, h.hold = run, out, nil, false // (decEnd and voted survive: the others have seen those votes)
 	h.r.emit(ev{"ev": "Boot", "self": jmsgs(run.SelfMessages()), "o": h.obs()})
+}
+
+// certLatest: the subscription hands over the newest stored certificate (if there is one)
+func (h *hist) certLatest() {
+	if l := h.cs.Latest(); l != nil {
+		h.cert(l.GPBFTInstance)
+	}
 }
 
 func (h *hist) cert(i uint64) {
@@ -771,6 +785,7 @@ func (h *hist) collect(mbs []*gpbft.MessageBuilder) {
 				if !stored {
 					continue // refused by the equivocation filter: never published, never comes back
 				}
+				h.voted[msg.Vote.Instance] = true
 			} else if h.lossy && h.rng.Intn(3) == 0 {
 				continue // a remote vote that never arrives
 			}
@@ -841,7 +856,7 @@ func TestRunnerHistories(t *testing.T) {
 		ctx, clk := clock.WithMockClock(ctx0)
 		h := &hist{w: w, r: r, rng: rng, ctx: ctx, clk: clk, s: s, m: w.manifest(s), dir: filepath.Join(base, fmt.Sprintf("h%d", hi)),
 			local: map[uint64]bool{}, sigs: map[string]mkey{}, lastEp: bootE, lag: int64(rng.Intn(3)), lossy: hi%4 == 3,
-			ds: ds_sync.MutexWrap(datastore.NewMapDatastore()), decEnd: map[uint64]int64{}}
+			ds: ds_sync.MutexWrap(datastore.NewMapDatastore()), decEnd: map[uint64]int64{}, voted: map[uint64]bool{}}
 		for _, id := range locals[hi%len(locals)] {
 			h.local[id] = true
 		}
@@ -882,7 +897,7 @@ func TestRunnerHistories(t *testing.T) {
 			t0 := time.Now()
 			if h.hold && x >= 16 {
 				if x < 60 {
-					h.cert(uint64(latestOf(h.cs)))
+					h.certLatest()
 					continue
 				}
 				x = 99 // no message is handed over meanwhile; the clock may move, alarms may fire
@@ -893,7 +908,7 @@ func TestRunnerHistories(t *testing.T) {
 			case x < 7:
 				h.put(1 + rng.Intn(3))
 				if rng.Intn(3) != 0 {
-					h.cert(uint64(latestOf(h.cs))) // the subscription hands over the newest one only
+					h.certLatest() // the subscription hands over the newest one only
 				}
 			case x < 13 && latestOf(h.cs) >= int64(s.Init):
 				// any stored certificate: a stale one, a duplicate, the newest
@@ -931,7 +946,7 @@ func TestRunnerHistories(t *testing.T) {
 				h.tick(h.now + int64(rng.Intn(int(2*s.Period))))
 				if idle > 2 {
 					h.put(1)
-					h.cert(uint64(latestOf(h.cs)))
+					h.certLatest()
 					idle = 0
 				}
 			}
@@ -1314,7 +1329,7 @@ func TestRunnerLoop(t *testing.T) {
 		h := &loopH{t: t, hl: hl, hist: &hist{w: w, r: r, rng: rng, ctx: ctx, clk: clk, s: s, m: m, dir: filepath.Join(base, fmt.Sprintf("l%d", hi)),
 			// one identity without a quorum of its own: replaying its votes cannot decide an instance by itself
 			local: map[uint64]bool{1: true}, sigs: map[string]mkey{}, lastEp: bootE, lag: int64(rng.Intn(2)),
-			ds: ds_sync.MutexWrap(datastore.NewMapDatastore()), decEnd: map[uint64]int64{}}}
+			ds: ds_sync.MutexWrap(datastore.NewMapDatastore()), decEnd: map[uint64]int64{}, voted: map[uint64]bool{}}}
 		h.backend = &linEC{period: m.EC.Period, table: w.table, hl: hl, entered: make(chan string, 1), release: make(chan struct{})}
 		h.now = (bootE+3+int64(rng.Intn(4)))*s.Period + int64(rng.Intn(int(s.Period)))
 		he := h.now/s.Period - h.lag
